@@ -2,6 +2,7 @@ import Poulpy.Lemmas.FheUint
 import Poulpy.Lemmas.BlindSel
 import Poulpy.Lemmas.Retriever
 import Poulpy.Lemmas.Cbt
+import Poulpy.Lemmas.CbtExp
 import Poulpy.Props.C20
 import Mathlib.Tactic.Positivity
 /-
@@ -295,6 +296,29 @@ theorem retriever_last_stream {V : Type} (cmn : Bool → V → V → V) (hcmn : 
   rw [List.getLast?_eq_getElem?, hl, Nat.add_sub_cancel, List.getElem?_eq_getElem (by omega), this]
   simp
 
+open BlindSel in
+/-- **one-shot `GLWEBlindRetriever`, general** (corollary of the object theorem): `alloc(size)` + `retrieve` of any table of at most
+`2^bit_size` elements (in particular `≤ size`, `alloc_capacity`) returns `data[v]` for the index field `v < data.length` at bit
+offset `offset` of the selector word — every size (1 included), every length, every element type. -/
+theorem retrieve_general {V : Type} (cmn : Bool → V → V → V) (hcmn : ∀ b res a, cmn b res a = if b then a else res)
+    (zero init : V) (size idx offset : Nat) (data : List V)
+    (hlen : data.length ≤ 2 ^ (Retr.alloc init size).accs.length)
+    (v : Nat) (hv : v < data.length)
+    (hbits : ∀ k < (Retr.alloc init size).accs.length, idx.testBit (k + offset) = v.testBit k) :
+    BlindSel.retrieve cmn zero init size idx offset data = .ok data[v] := by
+  have hr := reset_clean (Retr.alloc init size)
+  have hne : (Retr.alloc init size).reset.accs ≠ [] := by
+    intro h0
+    have h1 := hr.2
+    rw [h0] at h1
+    exact alloc_ne init size (List.eq_nil_of_length_eq_zero h1.symm)
+  obtain ⟨w, r', he, _, _, _, hrep⟩ := stream_good (bit := fun k => idx.testBit (k + offset)) hcmn zero
+    (Retr.alloc init size).reset hr.1 hne data (by rw [hr.2]; exact hlen)
+  unfold BlindSel.retrieve Retr.retrieve
+  rw [he]
+  simp only
+  rw [hrep v hv (fun k hk => hbits k (by rw [← hr.2]; exact hk))]
+
 /-- non-vacuity: three streams of lengths 2, 4, 1 on `alloc(4)` (streamed, streamed, one-shot), index 1 / 1 / 0 -/
 example : BlindSel.Retr.history (fun b (res a : Nat) => if b then a else res) (fun k => Nat.testBit 1 k) 0
     (BlindSel.Retr.alloc 0 4) [(false, [10, 11]), (false, [20, 21, 22, 23]), (true, [31, 30])] = .ok [11, 21, 30] := by rfl
@@ -466,6 +490,106 @@ theorem cbt_gives_ggsw {G : Type} (b size resB dnum : Nat) (scale : Int) (C : Ex
     (hrows : rows = (List.range dnum).map fun i =>
       Lut.enc b size size (w64 (((bit : Nat) : Int) * 2 ^ (resB * (dnum - 1 - i)) * scale))) :
     C.isGGSWOf (bit : Int) (C.expand rows) := C.sound _ rows hrows
+
+/-! ### Circuit bootstrapping, exponent mode -/
+
+set_option maxHeartbeats 400000 in
+open Lut Cbt in
+/-- **LWE message → rows of a GGSW of `X^{μ·2^log_gap_out}`.**  `circuit_bootstrap_core(to_exponent = true)` at plaintext level
+(`Model/Cbt.lean`, one table polynomial, `N = 2^logn`): the table `f[i] = 2^{res_base2k·(dnum−1−i)}` (`i < dnum`, zero
+elsewhere, length `2^log_domain·α`), `lookup_table_set`, the RIGHT blind rotation (standard or block-binary, binary block
+key, external-product contract: `X^{+(b₀ + Σ a_i s_i)}`), and the row loop `row_i ← post_process(res); res ← X^{−gap}·res`
+with `post_process` = partial trace, the `2^log_domain` copies rotated by multiples of `2^log_gap_in`, `glwe_pack` at
+`log_gap_out` (or the partial trace alone when the gaps are equal).  If the rotation index lands in the cell of the message
+`μ < 2^log_domain` — `(drift − K + μ·α·step) mod 2N = e`, `0 ≤ e < step`, `K = b₀ + Σ a_i s_i` (what an LWE phase
+`μ/2^{log_domain+1} + noise`, `|noise·2N| < step/2`, gives; `C14.index_error` for the mod-switch part) — then for EVERY output
+gap `log_gap_out ≤ log_gap_in` (the equal-gap path included, after repair 25) and every row `i < dnum`:
+
+    row_i = enc(2^{res_base2k·(dnum−1−i)}) · X^{μ·2^log_gap_out},
+
+a single monomial, every other coefficient exactly zero: the `dnum` rows of a GGLWE of `X^{μ·2^log_gap_out}`. -/
+theorem cbt_exponent_rows (logn b resB dnum step block q ld lgi lgo : Nat)
+    (hn2 : 2 * ((2 ^ logn : Nat) : Int) < 2 ^ 62) (hb : 1 ≤ b) (hb2 : b ≤ 63)
+    (_hdnum : 1 ≤ dnum) (hdiv : 2 ^ logn = 2 ^ ld * nextPow2 dnum * step) (hstep2 : step % 2 = 0) (hstep : 0 < step)
+    (hgi : nextPow2 dnum * step = 2 ^ lgi) (hlg : lgo ≤ lgi)
+    (hbits : maxBitSize (expTable ld dnum resB) + (resB * dnum) % b < 64) (hl1 : 1 ≤ (resB * dnum + b - 1) / b)
+    (hsym : SymP b (tableF b ((resB * dnum + b - 1) / b) ((resB * dnum + b - 1) / b) step
+      (if (resB * dnum) % b ≠ 0 then 2 ^ (b - (resB * dnum) % b) else 1) (expTable ld dnum resB)))
+    (hblock : 0 < block) (b0 : Int) (a sk : List Int) (hq : (List.zip a sk).length = block * q)
+    (hkey : ∀ blk ∈ chunksExact block (List.zip a sk).length (List.zip a sk), BinBlock blk)
+    (μ e : Nat) (hμ : μ < 2 ^ ld) (he : e < step)
+    (hcell : (((step / 2 : Nat) : Int) - (b0 + blkPhase (List.zip a sk)) + ((μ * (nextPow2 dnum * step) : Nat) : Int)) %
+      (2 * ((2 ^ logn : Nat) : Int)) = (e : Int)) :
+    ∃ T p0, lutSet (2 ^ logn) 1 b (resB * dnum) (expTable ld dnum resB) (resB * dnum) = .ok T ∧ T.data = [p0] ∧
+      expRows false (2 ^ logn) logn ((resB * dnum + b - 1) / b) dnum (cbtGap T.drift 1) lgo ld (blindPlain b block p0 (b0 :: a) sk) =
+        (List.range dnum).map fun i =>
+          mono (2 ^ logn) ((resB * dnum + b - 1) / b) (μ * 2 ^ lgo)
+            (enc b ((resB * dnum + b - 1) / b) ((resB * dnum + b - 1) / b)
+              (w64 (2 ^ (resB * (dnum - 1 - i)) * (if (resB * dnum) % b ≠ 0 then 2 ^ (b - (resB * dnum) % b) else 1)))) := by
+  obtain ⟨hage, hapos⟩ := nextPow2_ge dnum
+  have hflen := expTable_length ld dnum resB
+  have hnpos : 0 < 2 ^ logn := by positivity
+  have hdiv' : 2 ^ logn = (expTable ld dnum resB).length * step := by rw [hflen]; exact hdiv
+  have hset := lutSet_ext1 (2 ^ logn) b (resB * dnum) (resB * dnum) step (expTable ld dnum resB) hnpos hn2 hb
+    (by rw [hflen]; exact Nat.mul_pos (by positivity) hapos) hdiv' hbits hl1 (Nat.le_refl _)
+  generalize hsz : (resB * dnum + b - 1) / b = size at *
+  generalize hsc : (if (resB * dnum) % b ≠ 0 then (2:Int) ^ (b - (resB * dnum) % b) else 1) = scale at *
+  set F' := tableF b size size step scale (expTable ld dnum resB) with hF'
+  have hF'len : F'.length = 2 ^ logn := by rw [tableF_length, ← hdiv']
+  have hF'r : InRange F' := symP_inRange b hb2 F' hsym
+  have hF'sh : Shaped (2 ^ logn) size F' := ⟨hF'len, tableF_vec_length _ _ _ _ _ _⟩
+  refine ⟨_, rotate (-((step / 2 : Nat) : Int)) F', hset, rfl, ?_⟩
+  rw [blindPlain_rotates b block q hb hb2 hblock _ (rotate_shaped _ _ hF'sh) (rotate_sym b hb2 _ _ hsym) b0 a sk hq hkey]
+  generalize hK : b0 + blkPhase (List.zip a sk) = K at *
+  have hgap : cbtGap (step / 2) 1 = step := by unfold cbtGap; omega
+  simp only [hgap]
+  -- the input gap
+  have hlgi1 : 1 ≤ lgi := by
+    rcases Nat.eq_zero_or_pos lgi with h | h
+    · subst h
+      have : 2 ≤ nextPow2 dnum * step := by
+        have : 2 ≤ step := by omega
+        calc 2 ≤ step := this
+          _ ≤ nextPow2 dnum * step := Nat.le_mul_of_pos_left step hapos
+      omega
+    · exact h
+  have hlgin : logGapIn step (nextPow2 dnum) = lgi := by
+    unfold logGapIn
+    rw [Nat.mul_comm, hgi]
+    exact bitLen_pow_sub_one lgi hlgi1
+  have hsum : ld + lgi = logn := by
+    have : 2 ^ logn = 2 ^ (ld + lgi) := by rw [pow_add, ← hgi, ← Nat.mul_assoc]; exact hdiv
+    exact (Nat.pow_right_injective (Nat.le_refl 2) this).symm
+  unfold expRows
+  apply List.map_congr_left
+  intro i hi
+  have hid : i < dnum := List.mem_range.1 hi
+  rw [hlgin]
+  have hPr : InRange (rotate K (rotate (-((step / 2 : Nat) : Int)) F')) := rotate_inRange _ _ (rotate_inRange _ _ hF'r)
+  rw [iterRotateBy _ _ hPr i, rotate_rotate _ _ _ hF'r, rotate_rotate _ _ _ hF'r]
+  apply postProcess_mono logn size lgi lgo ld μ _ _ (rotate_shaped _ _ hF'sh) (rotate_inRange _ _ hF'r) hlg hsum hμ
+  intro i' hi'
+  have hpos : i' * 2 ^ lgi < (rotate ((i : Int) * -(step : Int) + (K + -((step / 2 : Nat) : Int))) F').length := by
+    rw [rotate_length, hF'len, ← hsum, pow_add]
+    exact Nat.mul_lt_mul_of_pos_right hi' (by positivity)
+  rw [getElem?_eq_sext _ _ hpos, sext_rotate _ _ (by rw [hF'len]; exact hnpos) (fun v hv => negV_negV v (hF'r v hv))]
+  congr 1
+  rw [← hgi]
+  exact exp_cell_core b size size step ld dnum resB (2 ^ logn) (nextPow2 dnum) (nextPow2 dnum * step) scale hb hb2 hstep hage hapos rfl
+    (by rw [hdiv, Nat.mul_assoc]) (expTable ld dnum resB) hflen (expTable_get ld dnum resB) K μ e hμ he hcell i hid i' hi'
+
+/-- non-vacuity (`N = 16`, `log_domain = 2`, one row, `μ = 1`): `log_gap_out = log_gap_in = 2` gives `X^4`, `log_gap_out = 1` gives `X^2` -/
+example : ∃ T, Lut.lutSet 16 1 8 3 (Cbt.expTable 2 1 3) 3 = .ok T ∧
+    Cbt.expRows false 16 4 1 1 (Cbt.cbtGap T.drift 1) 2 2 (Lut.rotate 4 (T.data.getD 0 [])) = [Cbt.mono 16 1 4 [32]] ∧
+    Cbt.expRows false 16 4 1 1 (Cbt.cbtGap T.drift 1) 1 2 (Lut.rotate 4 (T.data.getD 0 [])) = [Cbt.mono 16 1 2 [32]] :=
+  ⟨_, rfl, by decide, by decide⟩
+
+/-- what repair 25 bought: the code before it (`postProcess true`: partial trace with `skip = log_n − log_gap_in + 1`) leaves,
+on the equal-gap path, a second monomial half a gap below the right one — here `32·X^2 + 32·X^4` instead of `32·X^4`. -/
+theorem cbt_exponent_old_equal_gap_counterexample : ∃ T, Lut.lutSet 16 1 8 3 (Cbt.expTable 2 1 3) 3 = .ok T ∧
+    Cbt.expRows true 16 4 1 1 (Cbt.cbtGap T.drift 1) 2 2 (Lut.rotate 4 (T.data.getD 0 [])) =
+      [[[0], [0], [32], [0], [32], [0], [0], [0], [0], [0], [0], [0], [0], [0], [0], [0]]] :=
+  ⟨_, rfl, by decide⟩
 
 /-- what a prepared bit holds, given what item `i` of the loop produces -/
 def preparedBit (bitOf : Nat → Bool) : Threads.Act → Bool
